@@ -29,7 +29,7 @@ pub open spec fn out_key(o: OutputData) -> OutKey { (o.key_id, o.mmr_index) }
 pub open spec fn enumerates_outputs(s: Seq<OutputData>, m: Map<OutKey, OutputData>) -> bool {
     &&& forall|i: int| 0 <= i < s.len() ==> #[trigger] m.dom().contains(out_key(s[i])) && m[out_key(s[i])] == s[i]
     &&& forall|k: OutKey| #[trigger] m.dom().contains(k) ==> exists|i: int| 0 <= i < s.len() && s[i] == m[k]
-    &&& forall|i: int, j: int| #![auto] 0 <= i < j < s.len() ==> out_key(s[i]) != out_key(s[j])
+    &&& forall|i: int, j: int| 0 <= i < j < s.len() ==> #[trigger] out_key(s[i]) != #[trigger] out_key(s[j])
 }
 // storage (cursor) order is a function of the table's content
 pub uninterp spec fn seq_of_outputs(m: Map<OutKey, OutputData>) -> Seq<OutputData>;
@@ -43,7 +43,7 @@ pub open spec fn log_key(t: TxLogEntry) -> (Identifier, u32) { (t.parent_key_id,
 pub open spec fn enumerates_log(s: Seq<TxLogEntry>, m: Map<(Identifier, u32), TxLogEntry>) -> bool {
     &&& forall|i: int| 0 <= i < s.len() ==> #[trigger] m.dom().contains(log_key(s[i])) && m[log_key(s[i])] == s[i]
     &&& forall|k: (Identifier, u32)| #[trigger] m.dom().contains(k) ==> exists|i: int| 0 <= i < s.len() && s[i] == m[k]
-    &&& forall|i: int, j: int| #![auto] 0 <= i < j < s.len() ==> log_key(s[i]) != log_key(s[j])
+    &&& forall|i: int, j: int| 0 <= i < j < s.len() ==> #[trigger] log_key(s[i]) != #[trigger] log_key(s[j])
 }
 
 // every record is stored under the key derived from its own fields (holds by construction of
